@@ -71,7 +71,7 @@ CFG = {
         "mechanisms": ["fasta_idx.zero_base_read", "histories_on_truncated_files", "truncation_errors_reported", "errors_reported:unknown-name", "errors_reported:unknown-rid",
                        "errors_reported:stop-beyond-length", "errors_reported:start-after-stop"],
         "thorough_passes": ["plain", "asan"],
-        "assumptions": ["records have length >= 1 and the .fai is the one samtools would write for the file"],
+        "assumptions": ["the .fai is the one samtools would write for the file (LINEBASES 0 for records without bases)"],
     },
     "C13": {
         "mechanisms": ["bed_roundtrips", "gff_roundtrips:GFF3", "gff_roundtrips:GFF2", "gff_roundtrips:GTF2", "truncation_sweeps", "byte_corruption_cases",
